@@ -280,6 +280,27 @@ for _p, _t in _ADD.items():
     if _p in CLAIMS:
         CLAIMS[_p]['text'] = CLAIMS[_p]['text'] + ' ' + _t
 
+# ---- rules added after the fifth round (mutation sweeps): appended to the claim text
+_GEN = ('Shared generic rules applied to the files of the property (-K): names read but bound on no path (deleted defining statement; declared-only '
+        'C accumulators and memoryviews), private fields read but never written, sibling guard census (a validation every sibling of a family '
+        'performs must not be missing or inverted in one), sibling parameter defaults, argument order at calls whose parameter names are known. '
+        'If an anchored construct vanishes, these rules decide whether the reason is a positive defect (violation) before the run is declared an analysis error.')
+_ADD2 = {
+ 'C06': 'valid_charge, RecursiveDict and getters as above; deletions of a defining statement in an updater or getter are reported as unbound names.',
+ 'C07': 'Every unit conversion class of conversion.py has its documented factor and to / inv forms (R10, helpers expanded); the wavelength is looked up for the emitting ion: charge - 1 for recombination and thermal CX lines, charge for excitation (R3).',
+ 'C08': 'Fixed-format fields are cut at the columns of the ADAS record layout and sections have their documented sizes (R9: ADF21/22 header, ADF12 block, ADF11 header line fields, density / temperature split); install_files calls install_K for configuration key K, all 11 routes, options forwarded under their own names (R10); counted value sections start at 0 and advance by one per value (R11).',
+ 'C09': 'A function that takes a CX donor and uses a CX rate set loads one or hands the donor on (R1b never-loaded); a charge sum that is identically zero as divisor is reported.',
+ 'C10': 'RayTransferCylinder / RayTransferBox (R7): grid shape and steps per axis, rmin, bounding primitive inside the grid; pipelines / pixel processors (R8): a matrix row is the sum of the sample spectra (times sensitivity) divided by the number of samples.',
+ 'C14': 'Normalisation constants: data_delta_inv * data_delta = 1 on every constructor path (R6) and the interpolation helpers derivatives_array / factorial / find_index (R7).',
+ 'C16': 'Lazily built members are computed when unset and returned (R7); the wavelength range a PolychromatorFilter reports is the min / max of its wavelength array (R5); _clear_spectral_settings clears unconditionally (R6).',
+ 'C17': 'An accumulator or memoryview that is declared and never initialised is reported (shared rule).',
+}
+for _p, _t in _ADD2.items():
+    if _p in CLAIMS:
+        CLAIMS[_p]['text'] = CLAIMS[_p]['text'] + ' ' + _t
+for _p in CLAIMS:
+    CLAIMS[_p]['text'] = CLAIMS[_p]['text'] + ' ' + _GEN
+
 # ---- everything not claimed above is pending / not applicable
 _pending = 'check not built yet in this session (see DESIGN.md build order); not claimed until it is'
 for _p in ['C%02d' % i for i in range(1, 21)]:
